@@ -9,8 +9,7 @@ C02 — the property itself, over the plain history of operations (no fork table
   each such point ONCE, in the order written.
 
 Operations on other tasks do not occur in this definition at all (`enabledAfter` ignores them): that is the frame part of the property.
-A history is well-formed when no id is started while it is enabled (the task store stops a task before it restarts it;
-`TaskMaster.StartTask` on an executing id leaks the old edge). Core Lean only.
+Starting an id that is already enabled is refused and changes nothing (the task keeps its definition). Core Lean only.
 -/
 import Kap.Model.C02
 namespace Kap.C02
@@ -26,9 +25,9 @@ def selects (f : From) (db rp : String) (p : RawPoint) : Bool :=
    | some k => p.pass.contains k)
 
 /-- Under which definition is `t` enabled after one more operation (`none` = not enabled)?
-A task that declares no database/retention policy cannot be enabled. -/
+A task that declares no database/retention policy cannot be enabled; a task that is enabled cannot be enabled again. -/
 def enabledAfter (t : String) (cur : Option TaskDef) : Op → Option TaskDef
-  | .start d => if d.id = t ∧ d.dbrps ≠ [] then some d else cur
+  | .start d => if d.id = t ∧ d.dbrps ≠ [] ∧ cur = none then some d else cur   -- an enabled task is not started again
   | .startfail _ => cur          -- a start that fails does not enable the task
   | .stop id => if id = t then none else cur
   | .delete id => if id = t then none else cur
@@ -71,20 +70,6 @@ def writtenIds : List Op → List Nat
   | [] => []
   | .write _ _ pts :: rest => pts.map (·.id) ++ writtenIds rest
   | _ :: rest => writtenIds rest
-
-/-- Well-formed histories: `start` (successful or failing) only of an id that is not enabled. `run` = ids enabled so far. -/
-def wfFrom : List String → List Op → Bool
-  | _, [] => true
-  | run, .start d :: rest =>
-    if d.dbrps.isEmpty then wfFrom run rest else !run.contains d.id && wfFrom (d.id :: run) rest
-  | run, .startfail d :: rest => !run.contains d.id && wfFrom run rest
-  | run, .stop id :: rest => wfFrom (run.filter (· != id)) rest
-  | run, .delete id :: rest => wfFrom (run.filter (· != id)) rest
-  | run, .write _ _ _ :: rest => wfFrom run rest
-
-def WF (ops : List Op) : Prop := wfFrom [] ops = true
-
-instance (ops : List Op) : Decidable (WF ops) := by unfold WF; infer_instance
 
 /-- Does the operation concern task `t` (or is it a write)? Other tasks' start/stop/delete are "irrelevant". -/
 def relevant (t : String) : Op → Bool
